@@ -72,6 +72,10 @@ def run(ctx: Ctx) -> None:
         cbs = [(f, c) for f, c, k in sites if k == cb]
         ctx.ob("R4.2", f"parser:CxxParser|{cb} has a single site", len(cbs) == 1, msg=f"{cb} is called from {len(cbs)} sites", node=cbs[0][1] if cbs else pm.cls, mod=mod, nontrivial=False)
         for fname, call in cbs:
+            if fname == "_setup_state":
+                # the push and the start callback were merged into one function: the obligations below are stated on the
+                # caller / callee split of the reference (construct, push, announce in the block's own parser)
+                raise AnalysisError("block start is announced by _setup_state itself (push and start callback merged): not modelled")
             cfg = pm.cfg(fname)
             rd = reaching_defs(cfg)
             n = node_containing(cfg, call)
